@@ -494,6 +494,7 @@ def main_check(mod, tier: str, seed: int, replay: Optional[str] = None, only: Op
     t0 = time.time()
     prop = mod.ID
     modname = mod.__name__
+    setattr(mod, "TIER", tier)
     # --- replay mode -------------------------------------------------------------------
     if replay:
         with open(replay) as f:
